@@ -15,6 +15,54 @@ def plan_summary(plan):
             "world_impls": len(plan.world)}
 
 
+def _match(pat, t, sub):
+    """first-order matching of header ASTs (gen_pat tuples): pat's parameters may bind"""
+    if pat[0] == "tp":
+        if pat[1] in sub:
+            return sub[pat[1]] == t
+        sub[pat[1]] = t
+        return True
+    if t[0] == "tp" or pat[0] != t[0]:
+        return False
+    if pat[0] == "leaf":
+        return pat[1] == t[1]
+    if pat[0] == "ctor":
+        return pat[1] == t[1] and len(pat[2]) == len(t[2]) and all(a[0] == b[0] and _match(a[1], b[1], sub) for a, b in zip(pat[2], t[2]))
+    if pat[0] == "tuple":
+        return len(pat[1]) == len(t[1]) and all(_match(a, b, sub) for a, b in zip(pat[1], t[1]))
+    if pat[0] == "array":
+        return _match(pat[1], t[1], sub) and pat[2] == t[2]
+    if pat[0] == "ref":
+        return pat[1:3] == t[1:3] and _match(pat[3], t[3], sub)
+    return pat == t
+
+
+def d4_blocks(plan):
+    """blocks whose header is a proper instance of another block's header (another bucket) and that bound one of their
+    *own* parameters directly: such a bound is not in the image of the header substitution (defect D4)"""
+    out = set()
+    blocks = plan.blocks()
+    hdrs = []
+    for bi, (fi, mi, m) in enumerate(blocks):
+        f = plan.families[fi]
+        self_ty, targs, th = plan.member_header(f, m)
+        hdrs.append((self_ty, targs))
+    for j, (fj, mj, m) in enumerate(blocks):
+        f = plan.families[fj]
+        th = {i: m.theta.get(i, ("ty", ("tp", i))) for i in range(f.nparams)}
+        from ..gen_pat import subst as _subst
+        clauses = m.custom_bounds if m.custom_bounds is not None else [(_subst(k.bounded, th),) for k in f.keys]
+        if not any(c[0][0] == "tp" for c in clauses):
+            continue
+        for i, (hi, ti) in enumerate(hdrs):
+            if i == j or hi == hdrs[j][0]:
+                continue
+            sub = {}
+            if _match(hi, hdrs[j][0], sub) and any(v[0] != "tp" for v in sub.values()):
+                out.add(j)
+    return out
+
+
 def judge_tables(prop, rep, ev, clauses):
     """clauses: subset of {'items', 'coverage'}; returns list of oracle failures for this plan"""
     plan = ev.plan
@@ -31,6 +79,8 @@ def judge_tables(prop, rep, ev, clauses):
             if implemented != bool(app):
                 fails.append({"clause": "implemented iff some block applies", "probe": ty, "targs": targs,
                               "implemented": implemented, "applicable_blocks": app})
+        if "coverage" in clauses and "items" not in clauses and len(app) == 1 and implemented:
+            pass
         if "items" in clauses and len(app) == 1 and implemented:
             bi = app[0]
             for j, (kind, name, has_default) in enumerate(plan.items):
@@ -62,7 +112,9 @@ def run(prop, tier, seed, replay, clauses, n_quick, n_thorough, rule, gen_kw=Non
     g = PlanGen(rng)
     n = n_quick if tier == "quick" else n_thorough
     plans = [g.basic(**(gen_kw or {})) for _ in range(n)]
+    plans += [g.lattice() for _ in range(n // 3)]
     evs = PC.evaluate(so, plans)
+    known = {f["id"] for f in C.findings_for(prop)}
     shape_cases = []
     for ev in evs:
         plan = ev.plan
@@ -81,10 +133,31 @@ def run(prop, tier, seed, replay, clauses, n_quick, n_thorough, rule, gen_kw=Non
         rep.count("families:%d" % len(plan.families))
         rep.count("blocks:%d" % len(plan.blocks()))
         fails = judge_tables(prop, rep, ev, clauses)
+        d4 = d4_blocks(plan)
+        if d4 and "F-D4" in known:
+            kept = []
+            for f in fails:
+                blocks = set(f.get("applicable_blocks", [])) | ({f["block"]} if "block" in f else set())
+                if blocks & d4:
+                    rep.known("F-D4")
+                else:
+                    kept.append(f)
+            fails = kept
         for f in fails[:2]:
             rep.oracle_failures.append({**f, "invocation": plan.invocation_text(), "macro_program": plan.macro_program(),
                                         "shadow_program": plan.shadow_program()})
         shape_cases.append(plan)
     # translation validation of the real grouping/expansion against the hypotheses of the refinement theorem
-    shape.validate(rep, exe, shape_cases, prop)
+    def excuse(plan, problems):
+        # D4: a nested block bounding its own parameter is folded into the general family; its bound is then not the
+        # family key seen through the header substitution, which is exactly what memberOK reports
+        if "F-D4" in known and d4_blocks(plan) and all("memberOK fails" in p_ or "wildcard argument" in p_ for p_ in problems):
+            return "F-D4"
+        # D3: the wildcard entry of a nested member is printed with the family's key
+        nested_wild = any(m.theta and any(r_ is None for r_ in m.row) for f_ in plan.families for m in f_.members)
+        if "F-D3" in known and nested_wild and all("wildcard argument" in p_ for p_ in problems):
+            return "F-D3"
+        return None
+
+    shape.validate(rep, exe, shape_cases, prop, excuse=excuse)
     return rep.finish()
